@@ -1239,7 +1239,11 @@ class CSemantics:
         if num_given > num_expected:
             for argument in arguments[num_expected:]:
                 argument = self.pointer(argument)
+                # Default argument promotions (C99 6.5.2.2):
+                # integer promotions, and float becomes double.
                 argument = self.promote(argument)
+                if argument.typ.is_float:
+                    argument = self.coerce(argument, self.get_type(["double"]))
                 coerced_arguments.append(argument)
 
         # Determine lvalue. If we return a struct, we return an lvalue.
